@@ -467,15 +467,18 @@ func (h *harness) runTx(tx *txn) txResult {
 		err  error
 	)
 	value := big.NewInt(int64(tx.value))
-	if h.probe != nil {
-		h.probe.onPre(-1)
-	}
 	if tx.create {
+		if h.probe != nil {
+			h.probe.onPre(-1)
+		}
 		_, _, _, logs, err = evm.Create(caller, prog.rootInit, gasCap, value)
 	} else {
 		if common.IsProposal007() {
 			nonce := adb.GetNonce(origin)
 			adb.SetNonce(origin, nonce+1)
+		}
+		if h.probe != nil {
+			h.probe.onPre(-1)
 		}
 		target, _ := h.ab.resolveName(tx.target)
 		h.seen[target] = true
